@@ -27,7 +27,7 @@ def read_archive(path):
 def sub_directory(rng, nbasis):
     """a data directory holding a sample of store basis sets (symlinks), with its own index, notes and references"""
     md = store.metadata()
-    keys = rng.sample(sorted(md), nbasis) + ['sto-3g', 'def2-ecp', 'cc-pvdz']
+    keys = rng.sample(sorted(md), nbasis) + ['sto-3g', 'def2-ecp', 'cc-pvdz', 'midix']       # midix: one set of files under two names (MIDI!, MIDIX)
     base = set()
     for k in keys:
         e = md[k]
